@@ -58,14 +58,14 @@ package grammar
 //@ func (p *Parser) Parse
 //@   opt modifies-outside github.com/google/badwolf/bql/grammar
 //@   modifies llk.tkns
-//@   requires p != nil && GrammarOK(p.grammar) && LLkInv(llk)
+//@   requires p != nil && GrammarOK(p.grammar) && LLkInv(llk) && st != nil
 //@   ensures[buffer-invariant] LLkInv(llk)
 //@   ensures[whole-statement] result == nil ==> llk.tkns[0].Type == lexer.ItemEOF
 
 //@ func (p *Parser) consume
 //@   opt modifies-outside github.com/google/badwolf/bql/grammar
 //@   modifies llk.tkns
-//@   requires p != nil && GrammarOK(p.grammar) && LLkInv(llk)
+//@   requires p != nil && GrammarOK(p.grammar) && LLkInv(llk) && st != nil
 //@   ensures[buffer-invariant] LLkInv(llk) && llk.k == old(llk.k)
 //@   ensures[grammar-untouched] p.grammar == old(p.grammar) && GrammarOK(p.grammar)
 //@   loop 0 invariant LLkInv(llk) && llk.k == old(llk.k) && p.grammar == old(p.grammar) && GrammarOK(p.grammar)
@@ -73,7 +73,7 @@ package grammar
 //@ func (p *Parser) expect
 //@   opt modifies-outside github.com/google/badwolf/bql/grammar
 //@   modifies llk.tkns
-//@   requires p != nil && GrammarOK(p.grammar) && LLkInv(llk) && cls != nil
+//@   requires p != nil && GrammarOK(p.grammar) && LLkInv(llk) && cls != nil && st != nil
 //@   ensures[buffer-invariant] LLkInv(llk) && llk.k == old(llk.k)
 //@   ensures[grammar-untouched] p.grammar == old(p.grammar) && GrammarOK(p.grammar)
 //@   loop 0 invariant LLkInv(llk) && llk.k == old(llk.k) && p.grammar == old(p.grammar) && GrammarOK(p.grammar) && cls != nil
